@@ -83,6 +83,34 @@ Theorem C09_rotational_convection_zero_mean : forall (F : FieldT) (N Kc : Z) (ii
 Proof. intros. apply projected_conv_dc; assumption. Qed.
 Print Assumptions C09_rotational_convection_zero_mean.
 
+(* ... and for the terms AS REGENERATED FROM THE SOURCE (Gen/NonlinFuns.v, harness/translate/nonlin.py; tied to the term models in
+   Tie/NonlinTie.v) with the concrete dealiasing mask and pseudo-spectral products: the source text of the single-channel convection (both
+   forms), of the gradient norm with its mean-mode fix and of the 2D vorticity convection has zero mean for EVERY input state, any D / N / cutoff *)
+From EXV Require Import Nonlin.ConvProofs Gen.NonlinFuns Tie.NonlinTie Nonlin.MeanFree Nonlin.TermsProofs.
+Theorem C09_code_terms_have_zero_mean : forall (F : FieldT) (D : nat) (N Kc : Z) (ii s ND b : F) (u : field F) (us : list (field F)),
+  (0 < N)%Z -> (0 <= Kc)%Z -> (2 * Kc < N)%Z ->
+  let M := msk F Kc in let P2 := prod2 F D N Kc in let P3 := prod3 F D N Kc in
+  nth 0 (gen_convection F M P2 P3 ii s D ND b true true us) (fzero F) (zeros D) = 0
+  /\ nth 0 (gen_convection F M P2 P3 ii s D ND b true false us) (fzero F) (zeros D) = 0
+  /\ gen_gradient_norm F M P2 P3 ii s D ND b true u (zeros D) = 0
+  /\ gen_vorticity_conv F M P2 P3 ii s D ND b u (zeros D) = 0.
+Proof.
+  intros F D N Kc ii s ND b u us HN HK H2 M P2 P3.
+  assert (Hz : Forall (fun c => c = 0%Z) (zeros D) /\ is_zero (zeros D) = true).
+  { unfold zeros. split; [apply Forall_forall; intros x Hx; apply repeat_spec in Hx; exact Hx|].
+    unfold is_zero. apply forallb_forall. intros x Hx. apply repeat_spec in Hx. subst x. reflexivity. }
+  destruct Hz as [Hz1 Hz2]. splits.
+  - unfold M, P2, P3. rewrite convection_sc_cons_tie. apply conv_sc_cons_dc; assumption.
+  - unfold M, P2, P3. rewrite convection_sc_noncons_tie. apply conv_sc_noncons_dc; assumption.
+  - unfold M, P2, P3. rewrite gradient_norm_tie. apply gradient_norm_dc; assumption.
+  - assert (Lext : forall a a' c c' k, (forall x, a x = a' x) -> (forall x, c x = c' x) -> P2 a c k = P2 a' c' k) by (intros; apply prod2_ext; assumption).
+    assert (Lidem : forall a k, M (M a) k = M a k) by (intros; apply msk_idem).
+    assert (L2M : forall a c k, P2 (M a) (M c) k = P2 a c k) by (intros; apply prod2_msk).
+    assert (L3M : forall a c e k, P3 (M a) (M c) (M e) k = P3 a c e k) by (intros; apply prod3_msk).
+    rewrite vorticity_conv_tie by assumption. apply vorticity_conv_dc; assumption.
+Qed.
+Print Assumptions C09_code_terms_have_zero_mean.
+
 (* Burgers-type convection does no work on its own (band-limited) state: conservative and non-conservative single-channel forms, any D *)
 Theorem C09_burgers_type_convection_does_no_work : forall (F : FieldT) (D : nat) (N Kc : Z) (ii s b : F) (u : field F),
   (0 < N)%Z -> (0 <= Kc)%Z -> (3 * Kc < N)%Z ->
@@ -90,6 +118,23 @@ Theorem C09_burgers_type_convection_does_no_work : forall (F : FieldT) (D : nat)
   /\ pairing F D Kc (msk F Kc u) (conv_sc_noncons F (prod2 F D N Kc) ii s D b u) = 0.
 Proof. intros. split; [apply conv_sc_cons_no_work | apply conv_sc_noncons_no_work]; assumption. Qed.
 Print Assumptions C09_burgers_type_convection_does_no_work.
+
+(* ... and for the SOURCE text (Gen/NonlinFuns.v, tied in Tie/NonlinTie.v): the single-channel convection of the source, both forms, does no
+   work on its own band-limited state (3K < N: the 2/3 rule), for every state in any dimension *)
+From EXV Require Import Nonlin.Energy.
+Theorem C09_code_burgers_type_convection_does_no_work : forall (F : FieldT) (D : nat) (N Kc : Z) (ii s ND b : F) (u : field F),
+  (0 < N)%Z -> (0 <= Kc)%Z -> (3 * Kc < N)%Z ->
+  let M := msk F Kc in let P2 := prod2 F D N Kc in let P3 := prod3 F D N Kc in
+  pairing F D Kc (msk F Kc u) (fun k => nth 0 (gen_convection F M P2 P3 ii s D ND b true true [u]) (fzero F) k) = 0
+  /\ pairing F D Kc (msk F Kc u) (fun k => nth 0 (gen_convection F M P2 P3 ii s D ND b true false [u]) (fzero F) k) = 0.
+Proof.
+  intros F D N Kc ii s ND b u HN HK H3 M P2 P3. unfold M, P2, P3. split.
+  - rewrite (pairing_ext_r F D Kc _ _ (conv_sc_cons F (prod2 F D N Kc) ii s D b u)) by (intros k; rewrite convection_sc_cons_tie; reflexivity).
+    apply conv_sc_cons_no_work; assumption.
+  - rewrite (pairing_ext_r F D Kc _ _ (conv_sc_noncons F (prod2 F D N Kc) ii s D b u)) by (intros k; rewrite convection_sc_noncons_tie; reflexivity).
+    apply conv_sc_noncons_no_work; assumption.
+Qed.
+Print Assumptions C09_code_burgers_type_convection_does_no_work.
 
 (* 2D vorticity convection: no enstrophy work (<w, N(w)> = 0) and no energy work (<psi, N(w)> = 0, psi the stream function used by the term) *)
 Theorem C09_vorticity_convection_does_no_work : forall (F : FieldT) (D : nat) (N Kc : Z) (ii s b : F) (w : field F),
